@@ -19,6 +19,8 @@ mod k_naming;
 mod k_gen;
 #[cfg(feature = "k_gen")]
 mod facts;
+#[cfg(feature = "k_gen")]
+mod k_resp;
 
 pub type OpResult = Result<Value, String>;
 
@@ -29,6 +31,8 @@ fn dispatch(op: &str, input: &mut Value) -> OpResult {
     "naming" => k_naming::eval(op, input),
     #[cfg(feature = "k_gen")]
     "gen" => k_gen::eval(op, input),
+    #[cfg(feature = "k_gen")]
+    "resp" => k_resp::eval(op, input),
     _ => Err(format!("unknown-op:{op}")),
   }
 }
